@@ -47,9 +47,9 @@ extern size_t carquet_zstd_compress_bound(size_t src_size);
  */
 
 typedef struct carquet_page_writer {
-    carquet_buffer_t values_buffer;      /* Encoded values */
-    carquet_buffer_t def_levels_buffer;  /* Definition levels (RLE) */
-    carquet_buffer_t rep_levels_buffer;  /* Repetition levels (RLE) */
+    carquet_buffer_t values_buffer;      /* Encoded values (BOOLEAN: one byte per value until finalize) */
+    carquet_buffer_t def_levels_buffer;  /* Definition levels of the page (raw int16, encoded at finalize) */
+    carquet_buffer_t rep_levels_buffer;  /* Repetition levels of the page (raw int16, encoded at finalize) */
     carquet_buffer_t page_buffer;        /* Final page with header */
 
     carquet_physical_type_t type;
@@ -295,6 +295,8 @@ carquet_status_t carquet_page_writer_add_values(
         return CARQUET_ERROR_INVALID_ARGUMENT;
     }
 
+    carquet_status_t status = CARQUET_OK;
+
     /* Count nulls and non-null values */
     int64_t num_non_null = num_values;
     if (def_levels && writer->max_def_level > 0) {
@@ -307,16 +309,19 @@ carquet_status_t carquet_page_writer_add_values(
         writer->num_nulls += (num_values - num_non_null);
     }
 
-    /* Encode definition levels */
+    /* Accumulate the levels of this batch.  A data page carries exactly one
+     * length-prefixed block per level kind, so the levels of all batches that
+     * share the page are encoded together when the page is finalized. */
     if (writer->max_def_level > 0 && def_levels) {
-        encode_levels(def_levels, num_values, writer->max_def_level,
-                      &writer->def_levels_buffer);
+        status = carquet_buffer_append(&writer->def_levels_buffer,
+            (const uint8_t*)def_levels, (size_t)num_values * sizeof(int16_t));
+        if (status != CARQUET_OK) return status;
     }
 
-    /* Encode repetition levels */
     if (writer->max_rep_level > 0 && rep_levels) {
-        encode_levels(rep_levels, num_values, writer->max_rep_level,
-                      &writer->rep_levels_buffer);
+        status = carquet_buffer_append(&writer->rep_levels_buffer,
+            (const uint8_t*)rep_levels, (size_t)num_values * sizeof(int16_t));
+        if (status != CARQUET_OK) return status;
     }
 
     /* Encode values using PLAIN encoding.
@@ -326,13 +331,14 @@ carquet_status_t carquet_page_writer_add_values(
      * has num_values entries (one per logical row) indicating which rows are
      * null vs present.
      */
-    carquet_status_t status = CARQUET_OK;
-
     switch (writer->type) {
         case CARQUET_PHYSICAL_BOOLEAN: {
+            /* Booleans are bit-packed across the whole page: keep one byte
+             * per value here and pack at finalize, otherwise every batch
+             * would pad its last byte in the middle of the page */
             const uint8_t* bools = (const uint8_t*)values;
-            status = carquet_encode_plain_boolean(bools, num_non_null,
-                                                   &writer->values_buffer);
+            status = carquet_buffer_append(&writer->values_buffer, bools,
+                                            (size_t)num_non_null);
             break;
         }
 
@@ -485,21 +491,36 @@ carquet_status_t carquet_page_writer_finalize(
     carquet_buffer_t uncompressed;
     carquet_buffer_init(&uncompressed);
 
+    carquet_status_t status = CARQUET_OK;
+
     if (writer->rep_levels_buffer.size > 0) {
-        carquet_buffer_append(&uncompressed,
-                               writer->rep_levels_buffer.data,
-                               writer->rep_levels_buffer.size);
+        status = encode_levels((const int16_t*)writer->rep_levels_buffer.data,
+                               (int64_t)(writer->rep_levels_buffer.size / sizeof(int16_t)),
+                               writer->max_rep_level, &uncompressed);
     }
 
-    if (writer->def_levels_buffer.size > 0) {
-        carquet_buffer_append(&uncompressed,
-                               writer->def_levels_buffer.data,
-                               writer->def_levels_buffer.size);
+    if (status == CARQUET_OK && writer->def_levels_buffer.size > 0) {
+        status = encode_levels((const int16_t*)writer->def_levels_buffer.data,
+                               (int64_t)(writer->def_levels_buffer.size / sizeof(int16_t)),
+                               writer->max_def_level, &uncompressed);
     }
 
-    carquet_buffer_append(&uncompressed,
-                           writer->values_buffer.data,
-                           writer->values_buffer.size);
+    if (status == CARQUET_OK) {
+        if (writer->type == CARQUET_PHYSICAL_BOOLEAN) {
+            status = carquet_encode_plain_boolean(writer->values_buffer.data,
+                                                   (int64_t)writer->values_buffer.size,
+                                                   &uncompressed);
+        } else {
+            status = carquet_buffer_append(&uncompressed,
+                                            writer->values_buffer.data,
+                                            writer->values_buffer.size);
+        }
+    }
+
+    if (status != CARQUET_OK) {
+        carquet_buffer_destroy(&uncompressed);
+        return status;
+    }
 
     *uncompressed_size = (int32_t)uncompressed.size;
 
@@ -507,7 +528,7 @@ carquet_status_t carquet_page_writer_finalize(
     carquet_buffer_t compressed;
     carquet_buffer_init(&compressed);
 
-    carquet_status_t status = compress_data(writer->compression,
+    status = compress_data(writer->compression,
                                              uncompressed.data,
                                              uncompressed.size,
                                              &compressed);
